@@ -10,20 +10,18 @@ RULE = ("operation sequences on 1-3 sections of one output at terminal width 10:
         "line lengths {1, 9, 10, 11, 23} and a two-line text, and of TAGGED texts (<info>, <b>, <comment>, <error>, <u>, inline "
         "<fg=red>..</>, a tag around two words, an unknown tag, an escaped '\\<', an escaped whole tag, a tag spanning a line break, "
         "texts whose raw length exceeds the width while the visible length does not / equals it / exceeds it too, an empty line "
-        "between tagged lines), section.indent(0|2|3|7) so that a raw text that fits no longer fits when indented, clear(), clear(1), "
-        "clear(2); all sequences of the plain alphabet up to length 3 (quick) / 4 (thorough) after creating the sections, all "
+        "between tagged lines, the empty text), section.indent(0|2|3|7|12) so that a raw text that fits no longer fits when indented "
+        "and an empty line is written under an indentation wider than the terminal, clear(), clear(1), clear(2); all sequences of the plain alphabet up to length 3 (quick) / 4 (thorough) after creating the sections, all "
         "sequences of a tagged-and-indented alphabet up to length 3/4 (one section) and 3 (two sections), random ones up to length "
         "40 over everything with sections created on the way, in ANSI and in plain mode; the emitted bytes (SGR sequences "
         "included) are replayed on an independent terminal emulator; the class of the theorems (good markup) is decided on both "
         "sides and compared; non-trivial = touches >= 2 sections or a wrapped line or a tag or an indentation; distinct by op sequence")
-THEOREMS = ["screen_is_stack", "screen_is_stack_blank_lines", "screen_is_stack_plain", "rows_accounting", "good_line_shown",
-            "sgr_occupies_no_cell", "plain_degrades"]
+THEOREMS = ["screen_is_stack", "screen_is_stack_plain", "rows_accounting", "good_line_shown", "sgr_occupies_no_cell", "plain_degrades"]
 TRUSTED = ["Base/Term.v as the terminal (infinite height, deferred auto-wrap, LF implies CR, an SGR sequence occupies no cell); "
            "tabs and wide characters in section texts are outside the model (a character is one cell); pastel is modelled by "
            "Model/Markup.v (tied by C11 and by this run)"]
-ASSUMPTIONS = ["theorems: every line of a written text is good markup (no ESC / tab, no backslash at its end or right before a tag, "
-               "the formatter accepts it and leaves the style stack empty: no tag spans a line break); an empty line under an "
-               "indentation n > 0 only up to trailing blanks and only when n <= width"]
+ASSUMPTIONS = ["screen_is_stack: every line of a written text is good markup (no ESC / tab, no backslash at its end or right before a "
+               "tag, the formatter accepts it and leaves the style stack empty: no tag spans a line break); any indentation"]
 
 # 0..5: the plain texts (the corpus refers to them by index)
 TEXTS = ["a", "b" * 9, "c" * 10, "d" * 11, "e" * 23, "f\n" + "g" * 12,
@@ -42,8 +40,8 @@ TEXTS = ["a", "b" * 9, "c" * 10, "d" * 11, "e" * 23, "f\n" + "g" * 12,
          "<info>a\nb</info>",                  # 18 a tag spanning a line break (outside the class)
          "<fg=cyan;options=bold>1234567</> <b>9</b>"]  # 19 visible 9 (+ indentation 2: wraps)
 PLAIN_T = range(6)
-TAGGED_SMALL = [6, 7, 8, 10, 12, 13]
-INDENTS = [0, 2, 3, 7]
+TAGGED_SMALL = [6, 7, 8, 10, 12, 13, 17]
+INDENTS = [0, 2, 3, 7, 12]
 
 
 def ops_for(nsec):
@@ -71,6 +69,7 @@ def ops_tagged(nsec):
         ops.append([3, i, None])
         ops.append([3, i, 1])
         ops.append([4, i, 3])
+        ops.append([4, i, 12])
         ops.append([4, i, 0])
     return ops
 
@@ -204,23 +203,8 @@ def good_line(l):
     return v is not None and balanced
 
 
-def good_text(exact, n, text):
-    ls = text.split("\n")
-    return all(good_line(l) for l in ls) and ("" not in ls or n == 0 or (not exact and n <= W))
-
-
-def good_ops(exact, ops):
-    inds = []
-    for o in ops:
-        if o[0] == 0:
-            inds.append(0)
-        elif o[0] == 4:
-            if o[1] < len(inds):
-                inds[o[1]] = o[2]
-        elif o[0] in (1, 2):
-            if o[1] < len(inds) and not good_text(exact, inds[o[1]], TEXTS[o[2]]):
-                return False
-    return True
+def good_ops(ops):
+    return all(good_line(l) for o in ops if o[0] in (1, 2) for l in TEXTS[o[2]].split("\n"))
 
 
 def indent_text(n, text):
@@ -254,14 +238,14 @@ def run_impl(c):
     t.feed(data)
     contents = [[S(l) for l in s.content.split("\n")[:-1]] if s.content else [] for s in secs]
     return [0, termemu.tokens(data), [[cs, s.lines, s._indent] for cs, s in zip(contents, secs)],
-            [[S(r) for r in t.screen()], t.r, t.c], 1 if good_ops(True, c["ops"]) else 0, 1 if good_ops(False, c["ops"]) else 0]
+            [[S(r) for r in t.screen()], t.r, t.c], 1 if good_ops(c["ops"]) else 0]
 
 
 def oracle(c, o):
     if o[0] != 0:
         # the formatter refused a text: only texts 14 / 18 (a closing tag that meets a foreign style stack) can do that
         return None if any(op[0] in (1, 2) and op[2] in (14, 18) for op in c["ops"]) else "formatter-raised-on-good-markup"
-    _, toks, secs, (screen, r, col), g_exact, g_blank = o
+    _, toks, secs, (screen, r, col), good = o
     if not c["ansi"]:
         if any(t[0] not in (0, 1) for t in toks):
             return "control-code-on-plain-output"
@@ -291,19 +275,13 @@ def oracle(c, o):
             return "row-count-disagrees-with-content"
         stack += rows
     got = [unS(x) for x in screen]
-    if not g_blank and any(op[0] in (1, 2) and op[2] == 18 for op in c["ops"]):
+    if not good and any(op[0] in (1, 2) and op[2] == 18 for op in c["ops"]):
         # outside the class of the theorems: a tag that spans a line break, cut by a partial clear, leaves its style on the
         # formatter's stack for good (pastel keeps the stack between calls); an escaped tag written under an open style
         # then keeps its backslash on a decorated output (pastel's own rendering, DESIGN.md C20).  The model follows the
         # code there (the tie is still checked); the stack claim is not made.
         return None
-    if r != len(stack) or col != 0:
-        return "screen-differs-from-stacked-contents"
-    if g_exact:
-        if got != stack + [""]:
-            return "screen-differs-from-stacked-contents"
-    elif [x.rstrip(" ") for x in got] != [x.rstrip(" ") for x in stack] + [""]:
-        # an empty line written under an indentation shows its blanks only once the section is printed again
+    if got != stack + [""] or r != len(stack) or col != 0:
         return "screen-differs-from-stacked-contents"
     return None
 
